@@ -127,7 +127,15 @@ func (configgen *ConfigGeneratorImpl) BuildDeltaClusters(proxy *model.Proxy, upd
 			svcs, deleted = configgen.deltaFromServices(key, proxy, updates.Push, serviceClusters,
 				servicePortClusters, subsetClusters)
 		case kind.DestinationRule:
-			svcs, deleted = configgen.deltaFromDestinationRules(key, proxy, updates.Push, subsetClusters)
+			var known bool
+			svcs, deleted, known = configgen.deltaFromDestinationRules(key, proxy, updates.Push, subsetClusters)
+			if !known {
+				// Neither the current nor the previous scope of the proxy knows this DestinationRule, e.g. because
+				// its removal was already visible to the push that last recomputed the scope. We cannot tell
+				// which services it used to shape, so fall back to generating everything.
+				cl, lg := configgen.BuildClusters(proxy, updates)
+				return cl, nil, lg, false
+			}
 		case kind.PeerAuthentication:
 			svcs = configgen.deltaFromPeerAuthentication(key, proxy, updates.Push)
 		case kind.VirtualService, kind.Sidecar:
@@ -205,7 +213,7 @@ func (configgen *ConfigGeneratorImpl) deltaFromDestinationRules(
 	proxy *model.Proxy,
 	push *model.PushContext,
 	subsetClusters map[string]sets.String,
-) ([]*model.Service, []string) {
+) ([]*model.Service, []string, bool) {
 	var deletedClusters []string
 	var services []*model.Service
 	cfg := proxy.SidecarScope.DestinationRuleByName(updatedDr.Name, updatedDr.Namespace)
@@ -214,7 +222,7 @@ func (configgen *ConfigGeneratorImpl) deltaFromDestinationRules(
 		prevCfg := proxy.PrevSidecarScope.DestinationRuleByName(updatedDr.Name, updatedDr.Namespace)
 		if prevCfg == nil {
 			log.Debugf("Prev DestinationRule form PrevSidecarScope is missing for %s/%s", updatedDr.Namespace, updatedDr.Name)
-			return nil, nil
+			return nil, nil, false
 		}
 		dr := prevCfg.Spec.(*networking.DestinationRule)
 		services = append(services, proxy.SidecarScope.ServicesForHostname(host.Name(dr.Host))...)
@@ -245,7 +253,7 @@ func (configgen *ConfigGeneratorImpl) deltaFromDestinationRules(
 			deletedClusters = append(deletedClusters, subsetClusters[matchedSvc.Hostname.String()].UnsortedList()...)
 		}
 	}
-	return services, deletedClusters
+	return services, deletedClusters, true
 }
 
 // deltaFromServiceDiff computes the delta clusters by diffing the current
